@@ -463,7 +463,10 @@ def run_shard(desc):
                 for phase in (1, 2):
                     for i, nm in enumerate(names):
                         for it in range(4):
-                            plan.append({"op": "hammer", "tick": True, "n": block, "text": text_for(nm), "tag": nm if phase == 1 else "2:" + nm})
+                            hs = {"op": "hammer", "tick": True, "n": block, "text": text_for(nm), "tag": nm if phase == 1 else "2:" + nm}
+                            if e % 2 == 1:
+                                hs["ctx"] = 600 + e  # odd evaluators reuse one context of their own for every evaluation
+                            plan.append(hs)
                 plans.append(plan)
             # bystanders: threads that evaluate programs naming nothing that is being registered (deeply nested, long, assigning, calling
             # built-ins) on their own fresh contexts; whatever the other threads do, each evaluation must give its sequential result
